@@ -586,12 +586,18 @@ func (h H) labelCoherence(rule string) {
 		if !ok {
 			return
 		}
-		a := nfi.Sym(st.Addr).String()
-		for f, w := range want {
-			if strings.HasSuffix(a, ".meta."+f) {
-				seen++
-				h.C.Check(rule+" sink-label", "(*snapshots).new meta."+f, nfi.Sym(st.Val).String() == w, h.pos(st), "snapshots.new must label the sink with its "+f+" argument")
-			}
+		// a field of a snapshotMeta value: the sink's own, or a literal assigned to it as a whole
+		fa, isFA := st.Addr.(*ssa.FieldAddr)
+		if !isFA {
+			return
+		}
+		pt, isPtr := fa.X.Type().Underlying().(*types.Pointer)
+		if !isPtr || !types.Identical(pt.Elem(), h.P.Named("raft:snapshotMeta")) {
+			return
+		}
+		if w, ok := want[fieldName(fa)]; ok {
+			seen++
+			h.C.Check(rule+" sink-label", "(*snapshots).new meta."+fieldName(fa), nfi.Sym(st.Val).String() == w, h.pos(st), "snapshots.new must label the sink with its "+fieldName(fa)+" argument")
 		}
 	})
 	h.C.Floor(rule+" (sink label stores)", seen, 3)
@@ -670,7 +676,7 @@ func (h H) argOrigin(fn *ssa.Function, v ssa.Value, depth int) (string, *ssa.Fun
 			var rf *ssa.Function
 			core.Instrs(par, func(in ssa.Instruction) {
 				if ci, ok := in.(ssa.CallInstruction); ok {
-					if mc, ok := ci.Common().Value.(*ssa.MakeClosure); ok && mc.Fn == fn && idx < len(ci.Common().Args) {
+					if core.ClosureOf(ci.Common().Value) == fn && idx < len(ci.Common().Args) {
 						res, rf = h.argOrigin(par, ci.Common().Args[idx], depth+1)
 					}
 				}
